@@ -450,6 +450,8 @@ type FuncContract struct {
 	Acquires  []string // mutexes held on return
 	OnLock    []ModItem // state guarded by a mutex without a lockinv: havocked when the function first locks it
 	OnLockText []string
+	HasFSEffects bool   // fs_effects clause present
+	FSEffects []string  // the mutating os / io/ioutil calls the function may make directly
 	Callbacks []string  // func-typed parameters declared `callback p`
 	CbInvs    []*Clause // closure passed as a callback: invariants kept by every call
 	Asserts   []*Clause // "assert at call Callee#k: expr"
@@ -516,7 +518,7 @@ var clauseKeywords = map[string]bool{
 	"func": true, "on_lock": true, "extern": true, "requires": true, "requires_locked": true, "ensures": true, "modifies": true, "nopanic": true,
 	"loop": true, "specfunc": true, "ghost": true, "ghostsum": true, "ghost_set": true, "lockinv": true, "axiom": true, "trusted": true,
 	"pure": true, "inline": true, "held": true, "acquires": true, "assert": true, "package": true, "invariant": true, "lemma": true, "lemma_at": true, "unknown_calls_modify": true,
-	"assume_after": true, "callback": true, "closed_type": true,
+	"assume_after": true, "callback": true, "closed_type": true, "fs_effects": true,
 }
 
 // splitLabel splits "label: expr" (label is a bare identifier followed by ':' but not '::').
@@ -709,6 +711,20 @@ func (cs *ContractSet) parseContractText(file, pkgPath string, lines []string, l
 				}
 				cur.Modifies = append(cur.Modifies, mi)
 				cur.ModText = append(cur.ModText, part)
+			}
+		case "fs_effects":
+			// fs_effects os.RemoveAll, os.Rename: the frame of the function on the file system - the
+			// only mutating calls of package os (and io/ioutil) it may make directly; any other one
+			// is a failed obligation. An empty list ("fs_effects none") allows none.
+			if cur == nil {
+				return fmt.Errorf("%s:%d: fs_effects outside func", file, it.line)
+			}
+			cur.HasFSEffects = true
+			for _, part := range splitTop(rest, ',') {
+				part = strings.TrimSpace(part)
+				if part != "" && part != "none" {
+					cur.FSEffects = append(cur.FSEffects, part)
+				}
 			}
 		case "unknown_calls_modify":
 			// unknown_calls_modify x.f, map y: state that calls to code without a contract (function
